@@ -62,8 +62,10 @@ func RunTruncBig(seed int64, all bool) (out []Ev) {
 		c.CreateColumn("age", column.ForInt16())
 		c.CreateColumn("score", column.ForFloat64())
 		c.CreateColumn("name", column.ForEnum())
-		c.CreateColumn("note", column.ForString())
+		// (note stays the LAST column: a block of the snapshot then ends with its one large write, which the compressor flushes
+		// as a frame of its own - a cut at that frame boundary is a clean end of input exactly between two blocks)
 		c.CreateColumn("memo", column.ForString())
+		c.CreateColumn("note", column.ForString())
 		return c
 	}
 	src := &digestLogger{} // the source's own commits, digested the same way
